@@ -46,6 +46,24 @@ CLAIMS = {
         note='Trusts: CPython ast; the feed typing table (digest = nutils_hash()/.digest(), delimited = literal NUL terminator, raw, varnum); SHA-1 as a random oracle for fixed-length digests. '
              'Known findings F6, F9a, F9b are listed in known_findings.json.',
         design='DESIGN.md section 2, C17'),
+    'C18': dict(
+        technique='static analysis: typestate over structurally enumerated paths of the two cache mechanisms with fallible load/compute (ast), def-use of the cache key',
+        text='Decides the file protocol of cache.function and Recursion.__iter__ on every enumerated path, with pickle.load forking into EOFError/UnpicklingError and the wrapped computation into an '
+             'exception: r+b open, exclusive lock on that handle before any load/dump/seek and around the computation; truncated entries are survived and lead to recomputation; seek(0) between a failed '
+             'load and the rewrite; never a rewrite or recomputation after a hit; computation inside disable() with a recorded log that is stored and replayed; exceptions propagate without a store; the '
+             'entry name depends on module, qualname, version and every canonical argument; recursion bookkeeping (monotone exhausted flag, trimmed history, resume index, stop marker, layout agreement). '
+             'This is the shape that crash tolerance and mutual exclusion need for every history; what the OS guarantees for flock and partial writes and equality of unpickled values are NOT decided.',
+        note='Trusts: CPython ast; that a truncated pickle raises EOFError or UnpicklingError (CPython behaviour); flock semantics.',
+        design='DESIGN.md section 2, C18'),
+    'C20': dict(
+        technique='static analysis: abstraction of each dispatch handler to a dimension transfer signature compared with an oracle table; operator-binding, who-may-call and guard-dominance rules (ast)',
+        text='Decides that each of the ~95 registrations in Quantity\'s dispatch table routes its operation to a handler whose required operand equalities and result exponent vector are what dimensional '
+             'analysis dictates for that operation, that handlers pass only unwrapped operands on, that every operator dunder binds the same-named table entry (reflected ones through _reverse), that string '
+             'division/formatting and construction are dimension-checked and the unchecked parser is not reachable otherwise, that the Dimension algebra adds/subtracts/scales exponents with canonical interning, '
+             'that unit strings are parsed with the documented precedence and name resolution, and that both prefix tables equal the SI prefixes. Soundness of the dimension of every supported composition '
+             'follows from these per-operation rules; numerical conversion factors and the format round trip are NOT decided.',
+        note='Trusts: CPython ast; oracles/dimension_rules.json (classification of each operation by dimensional analysis; SI prefixes).',
+        design='DESIGN.md section 2, C20'),
 }
 
 NOT_APPLICABLE = {
